@@ -66,11 +66,26 @@ type invocation struct {
 	precision float64
 	color     bool
 	keyStyle  int
+	// twoKeys: -setkeys names two keys, "id,ns"; every keyed member then
+	// carries an "ns" whose value is another member's "id" value, so that two
+	// members may hold the same pair of values under exchanged keys
+	twoKeys bool
+}
+
+// keys lists the identity keys of the invocation.
+func (iv invocation) keys() []string {
+	if iv.twoKeys {
+		return []string{"id", "ns"}
+	}
+	return []string{"id"}
 }
 
 // keysArg is the -setkeys argument: the keys may carry blanks around them
 // (the README's "-setkeys a, b" form; they are trimmed).
 func (iv invocation) keysArg() string {
+	if iv.twoKeys {
+		return []string{"id,ns", "ns,id", "id, ns", " id ,ns "}[iv.keyStyle%4]
+	}
 	return []string{"id", "id", " id", "id "}[iv.keyStyle%4]
 }
 
@@ -122,7 +137,78 @@ func genInvocation(c *Chooser) invocation {
 	if (iv.arrays == "list" || iv.arrays == "setkeys") && c.Chance(1, 8) {
 		iv.precision = []float64{0.001, 0.5, 1}[c.Int(3)]
 	}
+	if strings.Contains(iv.arrays, "keys") && c.Chance(1, 3) {
+		iv.twoKeys = true
+	}
 	return iv
+}
+
+// withNS gives every array member that carries an "id" a second identity key
+// "ns", a function of the id alone (so a member keeps it through a lineage):
+// ordinals 1 and 2, 3 and 4, ... point at each other, so the members 1 and 2
+// of one array hold the same two values under exchanged keys.
+func withNS(v *Val) *Val {
+	if v == nil {
+		return nil
+	}
+	v = v.clone()
+	for _, c := range containers(v, nil) {
+		if c.K != 'a' {
+			continue
+		}
+		for _, e := range c.Elems {
+			if e.K != 'o' {
+				continue
+			}
+			id, ok := e.get("id")
+			if !ok {
+				continue
+			}
+			o := ordinalOf(id)
+			switch {
+			case o <= 0:
+			case o%2 == 1:
+				o++
+			default:
+				o--
+			}
+			kind := 0
+			switch id.K {
+			case 's':
+				kind = 1
+			case 'a':
+				kind = 2
+			case 'o':
+				kind = 3
+			}
+			e.set("ns", idVal(kind, o))
+		}
+	}
+	return v
+}
+
+// deepWrap puts both documents under the same chain of 2 to 7 single-purpose
+// objects. Every level has the key that leads further down plus unchanged
+// neighbours sorting before and after it.
+func deepWrap(c *Chooser, a, b *Val) (*Val, *Val) {
+	n := c.Range(2, 7)
+	for i := 0; i < n; i++ {
+		k := []string{"spec", "m", "template", "b", "items"}[c.Int(5)]
+		wrap := func(v *Val) *Val {
+			o := &Val{K: 'o'}
+			if i%2 == 0 {
+				o.set("a0", vn(float64(i)))
+			}
+			o.set(k, v)
+			o.set("zz", vs("z"))
+			if i%3 == 0 {
+				o.set("zzz", &Val{K: 'a', Elems: []*Val{vn(1), vn(2)}})
+			}
+			return o
+		}
+		a, b = wrap(a), wrap(b)
+	}
+	return a, b
 }
 
 func docText(c *Chooser, v *Val, yaml bool) string {
@@ -229,6 +315,14 @@ func genSession14(c *Chooser) Session {
 	} else if c.Chance(1, 40) {
 		b = nil
 	}
+	if iv.twoKeys {
+		a, b = withNS(a), withNS(b)
+	}
+	if !g.Huge && a != nil && b != nil && c.Chance(1, 6) {
+		// the same documents several objects further down (paths of 3 to 9
+		// elements), every level with neighbours before and after
+		a, b = deepWrap(c, a, b)
+	}
 	s := Session{Sector: []int{8, 64, 512, 4096}[c.Int(4)], FileChunk: []int{0, 0, 0, 1, 7, 512}[c.Int(6)], StdoutTTY: c.Chance(1, 4)}
 	an, bn := "a.json", "b.json"
 	if iv.yaml {
@@ -334,14 +428,14 @@ func genSession14(c *Chooser) Session {
 		var keys []string
 		switch arr {
 		case "setkeys":
-			arr, keys = "set", []string{"id"}
+			arr, keys = "set", iv.keys()
 			if iv.v1 {
 				arr = "list" // v1: -setkeys alone leaves arrays ordered
 			}
 		case "set+keys":
-			arr, keys = "set", []string{"id"}
+			arr, keys = "set", iv.keys()
 		case "mset+keys":
-			arr, keys = "mset", []string{"id"}
+			arr, keys = "mset", iv.keys()
 		case "set+mset":
 			arr = "skip"
 		}
